@@ -870,6 +870,20 @@ def rule_walk(ctx, prop):
                                   "directories above a directory argument are no longer read in every run, so files they "
                                   "exclude get formatted", f.loc(t["sp"]), cfg)
         rep.floor("WalkBuilder configuration calls", nwb, 6, cfg)
+        # standard_filters(x) assigns *all* the individual filters (hidden, parents, ignore, git_*): an individual setting made
+        # before it is overwritten, so it has to come first
+        sfb = [b for b, t in f.calls() if callee(t) == "ignore::WalkBuilder::standard_filters"]
+        for b, t in f.calls():
+            m = callee(t).split("::")[-1]
+            if callee(t).startswith("ignore::WalkBuilder::") and m in ("hidden", "parents", "ignore", "git_ignore", "git_global",
+                                                                          "git_exclude", "require_git"):
+                ok = all(f.dominates(sb, b) and sb != b for sb in sfb)
+                rep.inst(f"stylua::format {m}(..) is applied after standard_filters(..)", None, cfg, ok=ok)
+                if not ok:
+                    rep.violation(f"stylua::format walker-option-overwritten {m}",
+                                  f"WalkBuilder::{m} is called before standard_filters, which then overwrites it: the option "
+                                  f"behind it (e.g. --allow-hidden) has no effect and files the selection rules include are "
+                                  f"skipped (or the reverse)", f.loc(t["sp"]), cfg)
         # (5) should_respect_ignores = !is_explicitly_provided || opt.respect_ignores
         g = prog.fn("stylua", "should_respect_ignores")
         if rep.anchor(g is not None, "should_respect_ignores", cfg):
